@@ -569,7 +569,8 @@ def h_synthetic(X, kinds, limit=1):
     got, exp = _project(F.norm(st), k), _project(cur, k)
     if k <= 8:
         # before version 9 the replay marker lived in request/response ("is_replay": bool); convert_8_9 lifts it to the flow
-        exp["is_replay"] = cur["is_replay"] if "v8_has_is_replay" in active else None
+        carried = "v8_has_is_replay" in active and (cur["is_replay"] == "request" or (cur["is_replay"] == "response" and cur.get("response")))
+        exp["is_replay"] = cur["is_replay"] if carried else None
         got["is_replay"] = st["is_replay"]
     if "v13_response_without_timestamps" in active:
         # convert_13_14 repairs missing response timestamps from the request's end time
